@@ -83,3 +83,10 @@ Lemma ex_import_rule :
   imported_commits 3 5 = 5%Z /\ imported_commits (-5) 2 = 2%Z /\ imported_commits 3 (-1) = (-3)%Z /\
   imported_commits 2 (-7) = (-7)%Z /\ imported_commits 4 0 = 4%Z.
 Proof. vm_compute. repeat split; reflexivity. Qed.
+
+(** export writes "A<TAB>a<TAB>3" for the entry a -> 3 and import parses it back *)
+Lemma ex_export_line :
+  tidy [x61] /\ (0 <= commits (unpack erased_ops ex_v_3_3))%Z /\
+  table_formatter erased_ops ex_k1 ex_v_3_3 = Some [[x41]; [x61]; [x33]] /\
+  option_map fst (table_parser erased_ops [[x41]; [x61]; [x33]]) = Some ex_k1.
+Proof. repeat split; try discriminate; vm_compute; congruence. Qed.
